@@ -35,6 +35,13 @@ def check(ctx, R):
         rule_lock_objects(ctx, R, roles, li)
         from ..locks import rule_order
         rule_order(ctx, R, roles, li)      # a fault handler that re-enters a non-reentrant lock never returns: the lock stays held and close() blocks
+        # "unaffected by packets from the broken session": the transport is only touched, and packets are only filed, under the transport lock -
+        # connect() clears the store and redoes the handshake under that lock, so nothing of the old session can arrive in between
+        from ..locks import rule_guarded_by, GUARDED_BY_IO
+        rule_guarded_by(ctx, R, roles, li, GUARDED_BY_IO, roles.io_cls)
+        from .c06 import _pump
+        from ..engine import terms as _terms2
+        _pump(ctx, R, roles, li, _terms2(ctx))       # in particular: a packet read off the wire is filed before the transport lock is released
         from .c11 import loop_rules
         from ..engine import terms as _terms
         loop_rules(ctx, R, roles, _terms(ctx))       # a loop that can spin for ever (under a lock) makes close() block
